@@ -87,6 +87,15 @@ def run(tier, v):
                 if len(samples) < 2 and r["rep"] > 0 and sum(1 for d in r["dists"] if d >= 0) > 1:
                     samples.append({"database": m["db"] or "<bundled p0f.fp> " + m["table"], "observation": m["obs"][k], "dists": r["dists"][:12], "reported_entry": r["rep"], "quality_x100": r["rq"]})
     r2 = vlib.tlc("TV_C02", pid=PID, workers=8, env={"TRACE": trace}, timeout=3000, heap="12g")
+
+    if tier == "thorough":
+        def mut(rows):
+            k = next(i for i, r_ in enumerate(rows) if r_["rep"] > 0 and sum(1 for d in r_["dists"] if d >= 0) > 1)
+            r_ = dict(rows[k])
+            others = [i + 1 for i, d in enumerate(r_["dists"]) if d >= 0 and i + 1 != r_["rep"]]
+            r_["rep"] = others[-1]
+            return rows[:20] + [r_], "the reported entry of one lookup is replaced by another accepting entry"
+        v.binding.append(vlib.binding_demo("TV_C02", trace, mut, PID, workers=4, timeout=900, heap="6g"))
     for b in r2.lines.get("BAD", []):
         m = meta[b["id"]]
         v.violation({"database": m["db"] or "<bundled p0f.fp>", "table": m["table"], "observation": m["obs"][b["k"]],
